@@ -15,6 +15,7 @@
 package ggql
 
 import (
+	"math"
 	"strconv"
 )
 
@@ -41,8 +42,13 @@ func (*float64Scalar) CoerceIn(v interface{}) (interface{}, error) {
 	case nil:
 		// remains nil
 	case float64:
-		// ok as is
+		if math.IsNaN(tv) || math.IsInf(tv, 0) {
+			return nil, newCoerceErr(v, "Float64")
+		}
 	case float32:
+		if math.IsNaN(float64(tv)) || math.IsInf(float64(tv), 0) {
+			return nil, newCoerceErr(v, "Float64")
+		}
 		v = float64(tv)
 	case int32:
 		v = float64(tv)
@@ -51,6 +57,9 @@ func (*float64Scalar) CoerceIn(v interface{}) (interface{}, error) {
 	case string:
 		var f float64
 		if f, err = strconv.ParseFloat(tv, 64); err == nil {
+			if math.IsNaN(f) || math.IsInf(f, 0) {
+				return nil, newCoerceErr(v, "Float64")
+			}
 			v = f
 		}
 	default:
